@@ -295,6 +295,10 @@ def real_cell(cell):
         if scenario == "wsgi-app-changed":
             s.cfg["wsgi_app"] = "app2:app"
             s.write_conf()
+        if scenario == "bind-respelled":
+            # the same address written differently (tcp:// prefix): nothing about the listener changes
+            s.conf_lines.append("bind = 'tcp://127.0.0.1:%d'" % s.port)
+            s.write_conf()
         if scenario == "workers-removed":
             # the setting disappears from the configuration file: the built-in default (1) applies again
             del s.cfg["workers"]
@@ -371,7 +375,7 @@ def real_cell(cell):
         s.cleanup()
 
 
-SCENARIOS = ("idle", "app-running", "response-partial", "head-partial", "two-hups", "workers-2-3", "workers-removed", "raw-env-removed", "raw-env-popped", "wsgi-app-changed")
+SCENARIOS = ("idle", "app-running", "response-partial", "head-partial", "two-hups", "workers-2-3", "workers-removed", "raw-env-removed", "raw-env-popped", "wsgi-app-changed", "bind-respelled")
 
 
 def real_cells(thorough):
